@@ -194,6 +194,31 @@ fn stack_idioms(arch: usize) -> Vec<Vec<u8>> {
     }
 }
 
+/// The smallest PE image: DOS header, PE signature, COFF header without an optional header, one
+/// 16-byte code section at RVA 0x1000 (layout per the PE/COFF specification).
+fn one_section_pe(machine: u16) -> Vec<u8> {
+    let mut v = vec![0u8; 0x40];
+    v[0] = b'M';
+    v[1] = b'Z';
+    v[0x3c..0x40].copy_from_slice(&0x40u32.to_le_bytes());
+    v.extend_from_slice(b"PE\0\0");
+    v.extend_from_slice(&machine.to_le_bytes());
+    v.extend_from_slice(&1u16.to_le_bytes()); // sections
+    v.extend_from_slice(&[0u8; 12]); // time stamp, symbol table, number of symbols
+    v.extend_from_slice(&0u16.to_le_bytes()); // size of optional header
+    v.extend_from_slice(&0x0102u16.to_le_bytes()); // characteristics
+    let raw = (v.len() + 40) as u32;
+    v.extend_from_slice(b".text\0\0\0");
+    v.extend_from_slice(&16u32.to_le_bytes()); // virtual size
+    v.extend_from_slice(&0x1000u32.to_le_bytes()); // virtual address
+    v.extend_from_slice(&16u32.to_le_bytes()); // size of raw data
+    v.extend_from_slice(&raw.to_le_bytes()); // pointer to raw data
+    v.extend_from_slice(&[0u8; 12]); // relocations, line numbers
+    v.extend_from_slice(&0x6000_0020u32.to_le_bytes()); // code | execute | read
+    v.extend_from_slice(&[0x11, 0x22, 0x33, 0x44, 0x55, 0x66, 0x77, 0x88, 0x99, 0xaa, 0xbb, 0xcc, 0xdd, 0xee, 0xff, 0x00]);
+    v
+}
+
 /// An ELF image that consists of its file header only (no program or section headers): enough for
 /// the loader to choose the architecture descriptor.
 fn header_only_elf(class64: bool, big: bool, machine: u16) -> Vec<u8> {
@@ -413,6 +438,101 @@ fn check(case: &Case, obs: &mut Obs) -> Result<(), Failure> {
             }
             _ => obs.exclude("elf-loader:header-only-image-rejected"),
         }
+        // the PE loader knows three COFF machines
+        let coff: Option<u16> = match name {
+            "x86" => Some(0x14c),
+            "amd64" => Some(0x8664),
+            "mips" => Some(0x166),
+            _ => None,
+        };
+        if let Some(machine) = coff {
+            let image = one_section_pe(machine);
+            match guard(|| falcon::loader::Pe::new(image.clone())) {
+                Ok(Ok(pe)) => {
+                    use falcon::loader::Loader;
+                    let la = pe.architecture();
+                    if la.name() != name || la.endian() != ab.endian {
+                        bad(format!("C20|{}|pe-loader|descriptor", name), format!("a PE image of COFF machine 0x{:x} is given the descriptor {} / {:?}, expected {} / {:?}", machine, la.name(), la.endian(), name, ab.endian));
+                    }
+                    // the memory model the loader builds reads words in the descriptor's byte order
+                    // (the section holds the bytes 0x11 0x22 0x33 0x44 ... at RVA 0x1000)
+                    if let Ok(m) = pe.memory() {
+                        let want = if la.endian() == Endian::Big { 0x1122_3344u32 } else { 0x4433_2211u32 };
+                        match m.get32(0x1000) {
+                            Some(w) if w == want => {}
+                            got => bad(format!("C20|{}|pe-loader|memory-endian", name), format!("the PE loader publishes {} / {:?}, but its memory reads the bytes 11 22 33 44 as {:x?}", la.name(), la.endian(), got)),
+                        }
+                    }
+                    obs.class("pe-loader-descriptor-compared");
+                }
+                _ => obs.exclude("pe-loader:minimal-image-rejected"),
+            }
+        }
+    }
+
+    // --- MIPS: the byte order of the descriptor is the one the lifted unaligned accesses use ---------
+    // The canonical unaligned word store / load of the MIPS32 manual (swl+swr, lwl+lwr with the
+    // offsets of the descriptor's byte order), lifted and run on a memory of that byte order, must
+    // move the word 0xA1B2C3D4 to / from the four bytes at every alignment.
+    if fam == "mips" {
+        let big = a.endian() == Endian::Big;
+        let (hi_off, lo_off) = if big { (0u32, 3u32) } else { (3u32, 0u32) };
+        let enc = |op: u32, imm: u32| -> Vec<u8> { word(case.arch, op << 26 | 4 << 21 | 8 << 16 | imm) };
+        let run = |codes: &[Vec<u8>], st: fv::refil::RefState| -> Result<fv::refil::RefState, String> {
+            let mut st = st;
+            for code in codes {
+                let r = guard(|| a.translator().translate_block(code, 0x10000, &Options::default())).map_err(|p| p.msg)?.map_err(|e| e.to_string())?;
+                for (_, cfg) in r.instructions() {
+                    let view = fv::refil::FnView::of_cfg(cfg);
+                    let mut m = fv::refil::Machine::new(&view, st).map_err(|f| format!("{:?}", f))?;
+                    for _ in 0..200 {
+                        match m.step() {
+                            Ok(_) => {}
+                            Err(fv::refil::Fault::NoEdge) => break,
+                            Err(f) => return Err(format!("{:?}", f)),
+                        }
+                    }
+                    st = m.state;
+                }
+            }
+            Ok(st)
+        };
+        let bytes_of = |v: u32| -> [u8; 4] { if big { v.to_be_bytes() } else { v.to_le_bytes() } };
+        for k in 0..4u64 {
+            let addr = 0x2000 + k;
+            let mut st = fv::refil::RefState { scalars: BTreeMap::new(), mem: fv::refil::RefMem::new(big) };
+            st.scalars.insert("$a0".into(), fv::bv::Bv::from_u64(addr, 32));
+            st.scalars.insert("$t0".into(), fv::bv::Bv::from_u64(0xA1B2_C3D4, 32));
+            for i in 0..16u64 {
+                st.mem.bytes.insert(0x1ff8 + i, 0);
+            }
+            // store
+            match run(&[enc(0x2a, hi_off), enc(0x2e, lo_off)], st.clone()) {
+                Ok(after) => {
+                    let got: Vec<u8> = (0..4).map(|i| after.mem.bytes.get(&(addr + i)).copied().unwrap_or(0)).collect();
+                    let others_zero = after.mem.bytes.iter().all(|(a, b)| (*a >= addr && *a < addr + 4) || *b == 0);
+                    if got != bytes_of(0xA1B2_C3D4) || !others_zero {
+                        bad(format!("C20|{}|endian|unaligned-store", name), format!("swl/swr of 0xA1B2C3D4 at 0x{:x} with the offsets of a {:?} machine leaves {:02x?} there (other bytes untouched: {}); endian() is {:?}", addr, a.endian(), got, others_zero, a.endian()));
+                    }
+                }
+                Err(e) => bad(format!("C20|{}|endian|unaligned-store|il-fault", name), format!("running the lifted swl/swr pair at 0x{:x}: {}", addr, e)),
+            }
+            // load
+            let mut st2 = st.clone();
+            for (i, b) in bytes_of(0x5566_7788).iter().enumerate() {
+                st2.mem.bytes.insert(addr + i as u64, *b);
+            }
+            match run(&[enc(0x22, hi_off), enc(0x26, lo_off)], st2) {
+                Ok(after) => {
+                    let got = after.scalars.get("$t0").and_then(|v| v.to_u64());
+                    if got != Some(0x5566_7788) {
+                        bad(format!("C20|{}|endian|unaligned-load", name), format!("lwl/lwr at 0x{:x} with the offsets of a {:?} machine loads {:x?}, the memory holds 0x55667788 in that byte order", addr, a.endian(), got));
+                    }
+                }
+                Err(e) => bad(format!("C20|{}|endian|unaligned-load|il-fault", name), format!("running the lifted lwl/lwr pair at 0x{:x}: {}", addr, e)),
+            }
+        }
+        obs.class("mips-unaligned-byte-order-compared");
     }
 
     // --- descriptors vs lifter ---------------------------------------------------------------
